@@ -1,6 +1,6 @@
 (* C18 — executable comparison of the model with what the harness observed. *)
 From Coq Require Import List ZArith NArith Bool Strings.Byte String.
-From C18 Require Import Tables Model Spec ModelPath ModelBridge SpecPath.
+From C18 Require Import Tables Model Spec ModelPath ModelBridge SpecPath ModelStore SpecStore.
 Import ListNotations.
 Open Scope list_scope.
 
@@ -131,7 +131,10 @@ Inductive case :=
   | CBridge (g : gov) (o : lobj) (back : gov)
   (* json-parse of a text with several documents, the delivered bags kept and looked at after it returned:
      their contents in order (None = error) and whether they are all different objects *)
-  | CMulti (docs : list jv) (text : bytes) (delivered : option (list jv)) (distinct : bool).
+  | CMulti (docs : list jv) (text : bytes) (delivered : option (list jv)) (distinct : bool)
+  (* one call of a history of bag-parse / bag-set calls on several bags held at the same time: the contents of
+     ALL bags before, the call, did it signal an error, the contents of ALL bags after *)
+  | CStore (pre : list jv) (op : sop) (err : bool) (post : list jv).
 
 Definition wfmt (w : wkind) : fmt := match w with WExact f _ => f | WUnsorted f => f | WPretty f => f end.
 Definition wpretty (w : wkind) : bool := match w with WPretty _ => true | _ => false end.
@@ -241,6 +244,17 @@ Definition check_case (c : case) : N :=
   | CMulti docs text delivered distinct =>
     let agree := olsame (parse_multi text) delivered && distinct in
     code agree (olsame (parse_multi text) (Some docs)) (olsame delivered (Some docs) && distinct)
+  | CStore pre op err post =>
+    let m := sstep op pre in
+    let agree := Bool.eqb err (snd m) && lsame post (fst m) in
+    let g := forallb keys_unique pre in
+    if agree then
+      (* self-check: the model keeps the frame (store_others, store_path_frame) *)
+      (if g && negb (frame_kept same op pre (fst m)) then 3%N else 0%N)
+    else
+      (* a failing input: what was observed changed another bag or a disjoint path (the frame of the property,
+         judged on the observation alone), or the call is inside the guard where the model is the reference *)
+      if g && (negb (frame_kept same op pre post) || store_guard same op pre) then 2%N else 1%N
   end.
 
 Fixpoint check_all_from (i : N) (cs : list case) : list (N * N) :=
@@ -261,9 +275,15 @@ Definition in_guard (c : case) : bool :=
   | CNative v _ _ => native_ok v && keys_unique v
   | CBridge g _ _ => plain g
   | CMulti docs text _ _ => olsame (parse_multi text) (Some docs)
+  | CStore pre op _ _ => store_guard same op pre
   end.
 Definition guard_count (cs : list case) : N := N.of_nat (List.length (filter in_guard cs)).
 Definition outside_guard_broken (cs : list case) : N :=
   N.of_nat (List.length (filter (fun c => match c with
                                         | CText w v _ r => negb (text_ok (wpretty w) (wfmt w) v && top_ok (wfmt w) v) && negb (osame r (Some v))
                                         | _ => false end) cs)).
+
+(* how many of the history steps were taken with an object still held from an earlier parse (the shape in which
+   aliasing between parses would show) is counted by the harness; here: steps whose observation kept the frame *)
+Definition store_frames_kept (cs : list case) : N :=
+  N.of_nat (List.length (filter (fun c => match c with CStore pre op _ post => frame_kept same op pre post | _ => false end) cs)).
